@@ -248,6 +248,14 @@ class Engine:
             st.assume(n >= 0)
             get = self.fresh_elemfn(et, base, st)
             return st.alloc(HSeq(n, get, numpy=(k == "arr"), etype=et))
+        if k == "recseq":
+            cls, ftypes = t.args
+            n = z3.Int(fresh_name(base + ".len"))
+            st.assume(n >= 0)
+            fields = {}
+            for fname, ft in ftypes:
+                fields[fname] = self.fresh_elemfn(ft, "%s.%s" % (base, fname), st)
+            return st.alloc(HRec(n, fields, cls, dict(ftypes)))
         if k == "ghostfn":
             dom, rng = t.args
             f = z3.Function(fresh_name(base), dom, rng)
@@ -445,6 +453,8 @@ class Engine:
             return st.env[n]
         if n in self.module_consts:
             return self.module_consts[n]
+        if n in self.contracts:
+            return VConc(n)
         if ("builtin:" + n) in self.models or n in self.models:
             return VConc("builtin:" + n if ("builtin:" + n) in self.models else n)
         if n in ("np", "numpy", "math", "os", "sys", "itertools", "sympy", "utils", "simplifier", "generator",
@@ -465,6 +475,15 @@ class Engine:
             if dotted in self.module_consts:
                 return self.module_consts[dotted]
             return VConc(dotted)
+        if isinstance(base, VRecRef):
+            o = st.heap[base.addr]
+            if node.attr in o.fields:
+                return o.fields[node.attr](base.idx)
+            raise Unsupported("field %s of a %s record" % (node.attr, o.cls))
+        if isinstance(base, VRecProto):
+            if node.attr in base.fields:
+                return base.fields[node.attr]
+            raise Unsupported("field %s of a new %s" % (node.attr, base.cls))
         if isinstance(base, VRef):
             o = st.heap[base.addr]
             if isinstance(o, HObj):
@@ -674,6 +693,9 @@ class Engine:
     def is_seq(self, v, st):
         return isinstance(v, VRef) and isinstance(st.heap[v.addr], HSeq)
 
+    def is_rec(self, v, st):
+        return isinstance(v, VRef) and isinstance(st.heap[v.addr], HRec)
+
     def binop(self, op, a, b, st, node):
         if self.is_np(a, st) or self.is_np(b, st):
             return self.elementwise2(lambda x, y: self.binop(op, x, y, st, node), a, b, st, node)
@@ -814,6 +836,13 @@ class Engine:
         if n == 0:
             return st.alloc(HSeq(0, lambda k: VInt(0), numpy=numpy, note="empty", memfn=(lambda t: z3.BoolVal(False))))
 
+        memfn = None
+        try:
+            keys = [self.key_term(x) for x in items]
+            memfn = (lambda t, keys=keys: z3.Or([t == k_ for k_ in keys if k_.sort() == t.sort()] or [z3.BoolVal(False)]))
+        except Unsupported:
+            memfn = None
+
         def get(k, items=items):
             if z3.is_int_value(k) and 0 <= k.as_long() < len(items):
                 return items[k.as_long()]
@@ -821,7 +850,7 @@ class Engine:
             for i in range(len(items) - 2, -1, -1):
                 r = ite(k == i, items[i], r)
             return r
-        return st.alloc(HSeq(n, get, numpy=numpy))
+        return st.alloc(HSeq(n, get, numpy=numpy, memfn=memfn))
 
     def ev_Tuple(self, node, st):
         return VTuple([self.ev(e, st) for e in node.elts])
@@ -859,6 +888,17 @@ class Engine:
                 kt = self.key_term(key)
                 self.oblige(st, "key is present in dict (no KeyError)", o.has(kt), "safety", node)
                 return o.val(kt)
+            if isinstance(o, HRec):
+                idx = self.ev(sl, st)
+                if isinstance(idx, VMaybeNone):
+                    self.oblige(st, "index is not None", z3.Not(idx.isnone), "safety", node)
+                    idx = idx.val
+                if isinstance(idx, VNone):
+                    self.oblige(st, "index is not None", z3.BoolVal(False), "safety", node)
+                    raise PathEnd()
+                it = self.as_int(idx)
+                self.oblige(st, "index in range", z3.And(it >= 0, it < o.len), "safety", node)
+                return VRecRef(base.addr, it)
             if isinstance(o, H2D):
                 return self.models["subscript2d"](self, st, base, sl, node)
             if isinstance(o, HSeq):
@@ -986,6 +1026,10 @@ class Engine:
         S = Spec(self, st)
         for nm, cond in c.requires(S, a):
             self.oblige(st, "requires of %s: %s" % (c.qual, nm), cond, "requires", node, nm)
+        if getattr(c, "decreases", None) is not None and self.cur is c:
+            m_callee, m_caller = c.decreases(S, a), c.decreases(S, self.args0)
+            self.oblige(st, "recursive call of %s: the measure decreases and is bounded below" % c.qual,
+                        z3.And(m_callee >= 0, m_callee < m_caller), "termination", node)
         if c.raises is not None and c.may_raise:
             for exc in c.may_raise:
                 cond = c.raises(S, a, exc)
@@ -1127,6 +1171,14 @@ class Engine:
             return self.store_subscript(base, tgt.slice, v, st, node)
         if isinstance(tgt, ast.Attribute):
             base = self.ev(tgt.value, st)
+            if isinstance(base, VRecRef):
+                o = st.heap[base.addr].copy()
+                if tgt.attr not in o.fields:
+                    raise Unsupported("store into unknown field %s" % tgt.attr)
+                old, idx = o.fields[tgt.attr], base.idx
+                o.fields[tgt.attr] = (lambda k, old=old, idx=idx, v=v: ite(k == idx, v, old(k)))
+                st.heap[base.addr] = o
+                return
             if isinstance(base, VRef) and isinstance(st.heap[base.addr], HObj):
                 o = st.heap[base.addr].copy()
                 o.fields[tgt.attr] = v
@@ -1273,6 +1325,11 @@ class Engine:
                 if isinstance(o, HSeq) and isinstance(r, HSeq):
                     r = HSeq(z3.If(c, o.len, r.len), (lambda k, c=c, g1=o.get, g2=r.get: ite(c, g1(k), g2(k))),
                              numpy=o.numpy, etype=o.etype or r.etype)
+                elif isinstance(o, HRec) and isinstance(r, HRec) and set(o.fields) == set(r.fields):
+                    nf = {}
+                    for fn_ in o.fields:
+                        nf[fn_] = (lambda k, c=c, g1=o.fields[fn_], g2=r.fields[fn_]: ite(c, g1(k), g2(k)))
+                    r = HRec(z3.If(c, o.len, r.len), nf, o.cls, o.ftypes or r.ftypes)
                 elif isinstance(o, HDict) and isinstance(r, HDict) and o.keys is None and r.keys is None:
                     r = HDict(lambda q, c=c, h1=o.has, h2=r.has: z3.If(c, h1(q), h2(q)),
                               lambda q, c=c, v1=o.val, v2=r.val: ite(c, v1(q), v2(q)), None, o.ktype, o.vtype)
@@ -1391,7 +1448,12 @@ class Engine:
                     if n in names:
                         raise Unsupported("cannot havoc %s (type unknown)" % n)
                     continue
-            if isinstance(v, VRef) and n in heapmut and n not in names and isinstance(st.heap[v.addr], H2D):
+            if isinstance(v, VRef) and n in heapmut and n not in names and isinstance(st.heap[v.addr], HRec):
+                nv = self.fresh(t, "%s!%s" % (n, tag), st)
+                new = st.heap[nv.addr]
+                new.len = st.heap[v.addr].len
+                st.heap[v.addr] = new
+            elif isinstance(v, VRef) and n in heapmut and n not in names and isinstance(st.heap[v.addr], H2D):
                 nv = self.fresh(t, "%s!%s" % (n, tag), st)
                 new = st.heap[nv.addr]
                 old = st.heap[v.addr]
@@ -1432,6 +1494,9 @@ class Engine:
             o = st.heap[it.addr]
             n = o.len
             elem = o.get
+        elif self.is_rec(it, st):
+            n = st.heap[it.addr].len
+            elem = (lambda k, a=it.addr: VRecRef(a, k))
         elif isinstance(it, VTuple):
             n = z3.IntVal(len(it.items))
             elem = lambda k: Spec(self, st).get(it, k)
